@@ -327,8 +327,8 @@ pub fn run_wxscan(tier: &str, seed: u64, out: &mut Out) {
     let mut rng = Rng::new(seed ^ 0x5ca9);
     let n = if tier == "thorough" { 150_000 } else { 20_000 };
     let alphabet: Vec<&str> = vec!["\\", "\\", "\\", "x", "u", "0", "1", "4", "9", "a", "f", "F", "g", "d8", "D800", "dfff", "e000", "n", "r", "t", "b", "v",
-                                   "\\'", "\\\\", "q", " ", "{", "}", "é", "\u{1f600}", "\u{200b}", "\t", "7f"];
-    let fixed = ["\\x41", "\\u0041", "\\uD83D\\uDE00", "\\u{41}", "\\101", "\\x4", "\\u12", "\\x", "\\u", "\\q", "\\0", "\\01", "\\\\", "\\'", "a\\", "\\xg1", "\\ud7ff\\ue000", "\\x7f\\x00"];
+                                   "\\'", "\\\\", "q", " ", "{", "}", "é", "\u{1f600}", "\u{200b}", "\t", "7f", "\n", "\r", "\u{2028}", "\u{2029}"];
+    let fixed = ["a\\\nb", "a\\\r\nb", "a\\\rb", "a\\\r\\\nb", "\\\u{2028}\\\u{2029}x", "\\x41", "\\u0041", "\\uD83D\\uDE00", "\\u{41}", "\\101", "\\x4", "\\u12", "\\x", "\\u", "\\q", "\\0", "\\01", "\\\\", "\\'", "a\\", "\\xg1", "\\ud7ff\\ue000", "\\x7f\\x00"];
     let mut bodies: Vec<String> = fixed.iter().map(|s| s.to_string()).collect();
     for _ in 0..n {
         let k = rng.below(7);
@@ -357,5 +357,48 @@ pub fn run_wxscan(tier: &str, seed: u64, out: &mut Out) {
             _ => "NOELEM".to_string(),
         };
         out.case(&["wxscan", &enc(&format!("{}'", b))], &got);
+    }
+}
+
+/// string literal bodies for the comparison with JavaScript's own reading of the literal (C03): the value the parser
+/// assigns and the highest diagnostic level it raises
+pub fn run_wxscan_js(tier: &str, seed: u64, out: &mut Out) {
+    use glass_easel_template_compiler::parse::expr::Expression;
+    use glass_easel_template_compiler::parse::tag::{ElementKind, Node, Value};
+    let mut rng = Rng::new(seed ^ 0x15c4);
+    let n = if tier == "thorough" { 40_000 } else { 6_000 };
+    let alphabet: Vec<&str> = vec!["\\", "\\", "\\", "x", "u", "0", "1", "4", "8", "9", "a", "f", "F", "g", "d8", "D800", "dfff", "e000", "n", "r", "t", "b", "v",
+                                   "\\'", "\\\\", "q", " ", "{", "}", "é", "\u{1f600}", "\u{200b}", "\t", "7f", "\n", "\r", "\u{2028}", "\u{2029}", "\"", "41"];
+    let fixed = ["a\\\nb", "a\\\r\nb", "a\\\rb", "a\\\u{2028}b", "\\x41", "\\u0041", "\\uD83D\\uDE00", "\\u{41}", "\\101", "\\0", "\\08", "\\8", "\\v\\f\\b", "\\a\\c\\e"];
+    let mut bodies: Vec<String> = fixed.iter().map(|s| s.to_string()).collect();
+    for _ in 0..n {
+        let k = rng.below(6);
+        let mut s = String::new();
+        for _ in 0..k {
+            s.push_str(*rng.pick(&alphabet));
+        }
+        bodies.push(s);
+    }
+    for b in bodies {
+        let src = format!("<v a=\"{{{{'{}'}}}}\"/>", b.replace('"', "&quot;"));
+        if b.contains('"') {
+            continue;
+        }
+        let (tree, ps) = glass_easel_template_compiler::parse::parse("p", &src);
+        let level = ps.warnings().map(|d| d.kind.level() as u8).max().unwrap_or(0);
+        let got: Option<Vec<u32>> = match tree.content.get(0) {
+            Some(Node::Element(el)) => match &el.kind {
+                ElementKind::Normal { attributes, .. } => match attributes.get(0).and_then(|a| a.value.as_ref()) {
+                    Some(Value::Dynamic { expression, .. }) => match &**expression {
+                        Expression::LitStr { value, .. } => Some(value.chars().map(|c| c as u32).collect()),
+                        _ => None,
+                    },
+                    _ => None,
+                },
+                _ => None,
+            },
+            _ => None,
+        };
+        out.raw(&serde_json::json!({"body": b, "value": got, "level": level}).to_string());
     }
 }
